@@ -113,8 +113,8 @@ theorem ids_guard (ids o : List Nat) (others : List (List Nat)) (ho : o ∈ othe
   · left; exact ⟨x, h1, by simpa using h2⟩
 
 theorem glue_pinned :
-    Gen.pinLoadPatches = "65586728f324c237" ∧ Gen.pinMetadataCompute = "ea8d06bdc09d2395" ∧
-    Gen.pinPatchInit = "c04abebff7a471ab" ∧ Gen.pinGetCenters = "a31a8100987cab7d" := by decide
+    Gen.pinLoadPatches = "0d2a240a5dce65ab" ∧ Gen.pinMetadataCompute = "5146426264d913fa" ∧
+    Gen.pinPatchInit = "578d83fa2df925ec" ∧ Gen.pinGetCenters = "4ff78133909fad43" := by decide
 
 /-! non-vacuity -/
 example : (compute [1 / 2, 3 / 4, 1 / 4] none).radius = 3 / 4 := by decide +kernel
